@@ -34,6 +34,16 @@ fn scalar_of(text: &str, b: Backend, idx: usize, total: usize) -> Result<(String
 
 pub fn eval_presentation(t: &[char], style: u8, ctx: u8, ch: &mut Ch, acc: &mut Acc) {
     let Some((text, idx, total)) = render(t, style, ctx, ch) else { return };
+    // last choice point: how the line breaks of the presentation are written (LF, CRLF, CR)
+    let text = match ch.pick(3) {
+        0 => text,
+        k => {
+            if !text.contains('\n') {
+                return;
+            }
+            text.replace('\n', if k == 1 { "\r\n" } else { "\r" })
+        }
+    };
     acc.evals += 1;
     let target: String = t.iter().collect();
     let want = (target.clone(), style_of(style));
@@ -137,7 +147,7 @@ pub fn replay(case: &Value) -> Result<Acc, String> {
 
 pub fn check(tier: Tier) -> i32 {
     let mut rep = Report::new("C04", tier, "model_checking");
-    rep.rule = "abstract values: every target string up to length L over {a, space, LF, tab, ':', '#', ''', '\"', '\\', '-', 'é', '['} plus one-character targets for boundary code points; for each style (plain, single, double) and each of 8 syntactic contexts the presentation model enumerates ALL choice vectors with at most d deviations (per-character literal / \\x / \\u / \\U, tab literal or \\t, where to fold a space or a run of line feeds, continuation indentation, trailing blank padding before a fold, escaped line breaks, a comment line in front that makes the scalar straddle the 16-character input buffer); the real parser (StrInput and BufferedInput) must report Scalar(value == target, style). Plus fixed tables: every named escape, all 256 \\xHH in both cases, boundary \\u/\\U code points, and invalid escapes (surrogates, out of range, unknown, short) which must be errors. Non-trivial: every representable presentation; distinct: distinct rendered texts.".into();
+    rep.rule = "abstract values: every target string up to length L over {a, space, LF, tab, ':', '#', ''', '\"', '\\', '-', 'é', '['} plus one-character targets for boundary code points; for each style (plain, single, double) and each of 8 syntactic contexts the presentation model enumerates ALL choice vectors with at most d deviations (per-character literal / \\x / \\u / \\U, tab literal or \\t, where to fold a space or a run of line feeds, continuation indentation, trailing blank padding before a fold, escaped line breaks, a comment line in front that makes the scalar straddle the 16-character input buffer); the real parser (StrInput and BufferedInput) must report Scalar(value == target, style). Plus fixed tables: every named escape, all 256 \\xHH in both cases, boundary \\u/\\U code points, and invalid escapes (surrogates, out of range, unknown, short) which must be errors. The last choice point writes the line breaks of the presentation as LF, CRLF or CR. Non-trivial: every representable presentation; distinct: distinct rendered texts.".into();
     rep.assumptions = vec!["targets that are not representable in a style/context (by the ns-plain / nb-single-char productions) are skipped by the model".into(), "an escaped line break is never placed directly before a fold".into()];
     let budget = Budget::new(wall_cap(tier));
     rep.mandatory_scopes = 2;
